@@ -380,8 +380,16 @@ type cobs struct {
 }
 
 type cclient struct {
-	script []int // ops: 0..nMarshalOps-1 marshal ops, then size ops
+	script []int // ops: 0..nMarshalOps-1 marshal ops, then size ops, then opBystander
 	obs    []cobs
+	// a private message of another drawn type: the shared message's readers are not alone in the process, other
+	// goroutines use csproto on their own messages meanwhile (opBystander)
+	by      any
+	byTyp   corpus.Type
+	byWant  result
+	byGot   []result
+	byClass csproto.MessageType
+	byBad   string
 }
 
 const (
@@ -389,6 +397,7 @@ const (
 	opCsSize
 	opRtSize
 	nAllOps
+	opBystander = nAllOps // Marshal, MsgType and Clone of the client's private message
 )
 
 func runCoop(t *rapid.T, w *rep.Worker, maxClients int) {
@@ -401,14 +410,21 @@ func runCoop(t *rapid.T, w *rep.Worker, maxClients int) {
 	for i := range clients {
 		c := &cclient{}
 		for k, n := 0, rapid.IntRange(1, 6).Draw(t, "nops"); k < n; k++ {
-			c.script = append(c.script, rapid.IntRange(0, nAllOps-1).Draw(t, "op"))
+			c.script = append(c.script, rapid.IntRange(0, nAllOps).Draw(t, "op"))
 		}
+		c.byTyp = pickType(t)
+		c.by = c.byTyp.New()
+		if rapid.Bool().Draw(t, "bypopulate") {
+			corpus.Populate(t, corpus.Wrap(c.by), 0)
+		}
+		c.byWant = doMarshal(opCsMarshal, corpus.FreshCopy(c.by))
+		c.byClass = csproto.MsgType(corpus.FreshCopy(c.by))
 		clients[i] = c
 	}
 	w.Begin(fmt.Sprintf("type=%s runtime=%s clients=%d initial-cache=%s race=%v", typ, typ.Runtime, nc, []string{"cold", "warmed by generated.Size", "warmed by runtime.Size"}[warm], coop.RaceBuild))
 	w.MixS(typ.String() + corpus.Digest(m))
 	for _, c := range clients {
-		w.MixS(fmt.Sprint(c.script))
+		w.MixS(fmt.Sprint(c.script) + c.byTyp.String() + corpus.Digest(c.by))
 	}
 	// expected results from fresh copies, computed before anybody shares the message
 	var want [nMarshalOps]result
@@ -443,6 +459,17 @@ func runCoop(t *rapid.T, w *rep.Worker, maxClients int) {
 		c := clients[cc.ID]
 		for _, op := range c.script {
 			sched.Yield("api")
+			if op == opBystander {
+				if mt := csproto.MsgType(c.by); mt != c.byClass && c.byBad == "" {
+					c.byBad = fmt.Sprintf("MsgType(%s) = %v while other goroutines marshal, %v before", c.byTyp, mt, c.byClass)
+				}
+				c.byGot = append(c.byGot, doMarshal(opCsMarshal, c.by))
+				func() {
+					defer func() { _ = recover() }()
+					_ = csproto.Clone(c.by)
+				}()
+				continue
+			}
 			if op < nMarshalOps {
 				c.obs = append(c.obs, cobs{op: op, res: doMarshal(op, m)})
 				continue
@@ -522,6 +549,24 @@ func runCoop(t *rapid.T, w *rep.Worker, maxClients int) {
 			if (o.res.err == nil) != (wr.err == nil) || (wr.err == nil && !corpus.EqualModuloMapOrder(md, o.res.b, wr.b)) {
 				w.Step("client %d %s", ci, names[o.op])
 				w.Violate("concurrent-marshal-differs-from-fresh-copy|"+names[o.op], fmt.Sprintf("%s: client %d got %d bytes err=%v, fresh copy gives %d bytes err=%v", typ, ci, len(o.res.b), o.res.err, len(wr.b), wr.err))
+			}
+		}
+	}
+	for ci, c := range clients {
+		if c.byBad != "" {
+			w.Violate("concurrent-classification-wrong", fmt.Sprintf("client %d: %s", ci, c.byBad))
+		}
+		bmd := corpus.Wrap(c.by).Descriptor()
+		for _, g := range c.byGot {
+			w.Probe("bystander_marshals")
+			if g.panic != nil || c.byWant.panic != nil {
+				if (g.panic != nil) != (c.byWant.panic != nil) {
+					w.Violate("concurrent-bystander-marshal-panic-differs", fmt.Sprintf("client %d, private %s: panic=%v while other goroutines marshal, panic=%v alone", ci, c.byTyp, g.panic, c.byWant.panic))
+				}
+				continue
+			}
+			if (g.err == nil) != (c.byWant.err == nil) || (g.err == nil && !corpus.EqualModuloMapOrder(bmd, g.b, c.byWant.b)) {
+				w.Violate("concurrent-bystander-marshal-differs", fmt.Sprintf("client %d, private %s: %d bytes err=%v while other goroutines marshal, %d bytes err=%v alone", ci, c.byTyp, len(g.b), g.err, len(c.byWant.b), c.byWant.err))
 			}
 		}
 	}
